@@ -26,11 +26,11 @@ pub uninterp spec fn sig_ok(pk: Ed25519PK, msg: Seq<u8>, sig: Seq<u8>) -> bool;
 #[derive(Clone, Copy, PartialEq, Eq, Hash, Structural)] pub struct TxHash(pub HashVal);
 #[derive(Clone, Copy, PartialEq, Eq, Hash, Structural)] pub struct Address(pub HashVal);
 #[derive(Clone, Copy, PartialEq, Eq, Hash, Structural)] pub struct CoinID { pub txhash: TxHash, pub index: u8 }
-#[derive(Clone, Copy, PartialEq, Eq, Hash, Structural)] pub enum TxKind { DoscMint, Faucet, LiqDeposit, LiqWithdraw, Normal, Stake, Swap }
+#[derive(Clone, Copy, PartialEq, Eq, Hash, Structural)] pub enum TxKind { DoscMint = 0x50, Faucet = 0xff, LiqDeposit = 0x52, LiqWithdraw = 0x53, Normal = 0x00, Stake = 0x10, Swap = 0x51 }
 #[derive(Clone, Copy, PartialEq, Eq, Hash, Structural)] pub enum Denom { Mel, Sym, Erg, NewCustom, Custom(TxHash) }
 #[derive(Clone, Copy, PartialEq, Eq, Hash, Structural)] pub struct CoinValue(pub u128);
 #[derive(Clone, Copy, PartialEq, Eq, Hash, Structural)] pub struct BlockHeight(pub u64);
-#[derive(Clone, Copy, PartialEq, Eq, Hash, Structural)] pub enum NetID { Testnet, Custom02, Custom03, Custom04, Custom05, Custom06, Custom07, Custom08, Mainnet }
+#[derive(Clone, Copy, PartialEq, Eq, Hash, Structural)] pub enum NetID { Testnet = 0x01, Custom02 = 0x02, Custom03 = 0x03, Custom04 = 0x04, Custom05 = 0x05, Custom06 = 0x06, Custom07 = 0x07, Custom08 = 0x08, Mainnet = 0xff }
 #[derive(Clone, Copy, PartialEq, Eq, Hash, Structural, PartialOrd, Ord)] pub struct Ed25519PK(pub [u8; 32]);
 
 impl FromSpecImpl<HashVal> for TxHash { open spec fn obeys_from_spec() -> bool { true } open spec fn from_spec(v: HashVal) -> TxHash { TxHash(v) } }
